@@ -234,6 +234,8 @@ def call_sym_method(interp, recv, name, args, kwargs):
             return split(interp, recv, *args, **kwargs)
         if name == "strip":
             return strip(interp, recv, *args)
+        if name in ("rstrip", "lstrip") and isinstance(recv, SStr):
+            return interp.ctx.strip_side(interp, recv, name, args[0] if args else None)
         if name == "format":
             return str_format(interp, recv, args, kwargs)
         if name in ("startswith", "endswith"):
